@@ -5,13 +5,20 @@ from sa.core import call_name, bind_args
 from sa.slicer import Slice, uses
 
 
-def status_slices(repo, status_param='program_retval'):
+def status_slices(repo, status_param='program_retval', oa_by_model=False):
+    """oa_by_model: the per-name renderer's status is decided by the interpretation model (props/_renderer.py: the returned status is the same for
+    every presentation flag, padding width and size annotation); its status then depends on the table, the category, the name and the incoming
+    status only, and the slice of that function is not consulted."""
     oa = repo.func('ssh_audit', 'output_algorithm')
     oas = repo.func('ssh_audit', 'output_algorithms')
     outf = repo.func('ssh_audit', 'output')
-    s1 = Slice(oa)
-    R1 = s1.closure({status_param}) | s1.closure({'<return>'})
-    params_oa = {a.arg for a in oa.args.args} & R1
+    if oa_by_model:
+        R1 = set()
+        params_oa = {a.arg for a in oa.args.args} & {'alg_db', 'alg_type', 'alg_name', status_param}
+    else:
+        s1 = Slice(oa)
+        R1 = s1.closure({status_param}) | s1.closure({'<return>'})
+        params_oa = {a.arg for a in oa.args.args} & R1
 
     def cu_oas(call):
         if call_name(call) == 'output_algorithm':
@@ -37,4 +44,4 @@ def status_slices(repo, status_param='program_retval'):
         return None
     R3 = Slice(outf, call_uses=cu_out).closure({'<return>'})
     R3 -= {'out'}
-    return [('output_algorithm', oa, R1), ('output_algorithms', oas, R2), ('output', outf, R3)]
+    return ([] if oa_by_model else [('output_algorithm', oa, R1)]) + [('output_algorithms', oas, R2), ('output', outf, R3)]
